@@ -123,15 +123,67 @@ func oracle(r *rec, w *world, lines []string, script []string) string {
 				}
 			}
 		case "runret":
-			for _, s := range startsBefore(es, j) {
-				if liveAt(es, s.id, j) {
+			// The return is logged after it happened and workers may start in between, so only workers that were
+			// certainly started before the return count: live or accepted when the call began (Run's own Start
+			// starts the accepted ones), or started before the logged return of a worker Run had to wait for.
+			k := -1
+			for i := 0; i < j; i++ {
+				if es[i].kind == "runcall" && es[i].a == e.a {
+					k = i
+				}
+			}
+			if k < 0 {
+				continue
+			}
+			startIdx, retIdx, info := map[int]int{}, map[int]int{}, map[int]startInfo{}
+			for i, x := range es {
+				if x.kind == "start" {
+					startIdx[x.a] = i
+					info[x.a] = startInfo{x.a, x.b, x.c}
+				}
+				if x.kind == "ret" {
+					retIdx[x.a] = i
+				}
+			}
+			must := map[int]bool{}
+			for i := 0; i < k; i++ {
+				if es[i].kind == "start" && liveAt(es, es[i].a, k) {
+					must[es[i].a] = true
+				}
+				if es[i].kind == "bwret" && es[i].res == "ok" {
+					if si, ok := startIdx[es[i].a]; !ok || si > k {
+						must[es[i].a] = true
+					}
+				}
+			}
+			limit := k
+			for changed := true; changed; {
+				changed = false
+				for id := range must {
+					if r, ok := retIdx[id]; ok && r < j && r > limit {
+						limit = r
+						changed = true
+					}
+				}
+				for id, si := range startIdx {
+					if si < limit && !must[id] {
+						must[id] = true
+						changed = true
+					}
+				}
+			}
+			for id := range must {
+				si, started := startIdx[id]
+				r, returned := retIdx[id]
+				if started && si < j && (!returned || r > j) {
+					s := info[id]
 					t := "initial-worker"
 					w.mu.Lock()
 					if w.lateOps[s.id] {
 						t = "worker-added-after-run-snapshot"
 					}
 					w.mu.Unlock()
-					fail("runwait", fmt.Sprintf("Run returned while started worker inst %d (name %d order %d) had not returned", s.id, s.name, s.order),
+					fail("runwait", fmt.Sprintf("Run returned while worker inst %d (name %d order %d), started before that, had not returned", s.id, s.name, s.order),
 						map[string]string{"api": "Run", "trigger": t})
 				}
 			}
